@@ -18,6 +18,7 @@ RULE = (
     "batch whose other rows are different cases, a prefix is also decoded 1-D. ML clause: all 2^n words for small n, seeded words above; distance to the decoded codeword "
     "must equal the reference minimum. Distinct = (code, decoder, received word); non-trivial = error weight>=1 or non-codeword."
     " Added after the seeded-fault rounds: units of one decoder kind and code shape run in one child process; batch sizes cycle through 1..601 plus one 640-row batch per pairing; on-demand brute-force decoder (precompute_codebook=False); Berlekamp-Massey paired with 'left'/'right' information sets only (as the property states)."
+    " Round 5: form axis of the catalogue (deep copy, .double(), .double().float(), state_dict twin) for every decoder pairing of the representatives."
 )
 ASSUMPTIONS = [
     "t = floor((d_adv-1)/2) with d_adv the advertised distance (minimum_distance / delta / error_correction_capability / documented family value); generic codes without advertisement use the reference's true d",
